@@ -403,6 +403,13 @@ func (c *Collection) ScanGreaterOrEqual(id string, desc bool,
 // Within/Intersects test objects against the true disc, so objects near the
 // rim or across the antimeridian were never offered as candidates.
 func searchRect(obj geojson.Object) geometry.Rect {
+	return SearchRect(obj)
+}
+
+// SearchRect is the rectangle that holds every position an area can match
+// (see searchRect); callers that index areas, like the geofence hook tree,
+// need the same box as the searches.
+func SearchRect(obj geojson.Object) geometry.Rect {
 	rect := obj.Rect()
 	if circle, ok := obj.(*geojson.Circle); ok && circle.Meters() > 0 {
 		center := circle.Center()
